@@ -651,7 +651,7 @@ func capped(c *core.Ctx, stream string, idx int) bool {
 
 // Run is the check.
 func Run(c *core.Ctx) {
-	c.Note("rule", "cascade scripts are data (per event kind a list of rules with priority, fail flag, yields and child events with priorities, incl. non-triggering children); an independent expansion gives the expected (event, rule) invocations and failures (respecting fail-on-first-error); the real engine runs them with harness closures as actions, 1..16 workers, 1..8 cascades in flight from separate goroutines; streams: 'gate' = 4 fixed shapes x 14 hold points (12 on workers, 2 on the adding goroutine between AddTask and its wait) x 13 partner points (one goroutine held at the hold point until another passed the partner point; infeasible pairs are released), 'nested' = rule actions that wait for a nested cascade of their own (fan < workers) with a stuck predicate that accepts workers blocked in a nested wait, 'late' = random scripts in which half of the child events are added by a helper goroutine after the action that created their monitor has returned (asynchronous producer; the wait still has to cover them), 'ecal' = the same scripts as ECAL sinks awaited with the built-in addEventAndWait, 'noise' = seeded random scripts with random yields/sleeps at the lock-free hook points, also under -race; oracles: stamps of action ends vs. return of AddEventAndWait, exactly-once invocation table, AllErrors() at return time and again at quiescence vs. expected failures, finish-handler count, IsFinished of every monitor handed out, stuck-state predicate for a wait that cannot return; non-trivial/distinct = distinct interleaving signatures of the hook trace and feasible gate cases")
+	c.Note("rule", "cascade scripts are data (per event kind a list of rules with priority, fail flag, yields and child events with priorities, incl. non-triggering children); an independent expansion gives the expected (event, rule) invocations and failures (respecting fail-on-first-error); the real engine runs them with harness closures as actions, 1..16 workers, 1..8 cascades in flight from separate goroutines; streams: 'gate' = 4 fixed shapes x 14 hold points (12 on workers, 2 on the adding goroutine between AddTask and its wait) x 13 partner points (one goroutine held at the hold point until another passed the partner point; infeasible pairs are released), 'nested' = rule actions that wait for a nested cascade of their own (fan < workers) with a stuck predicate that accepts workers blocked in a nested wait, 'late' = random scripts in which half of the child events are added by a helper goroutine after the action that created their monitor has returned (asynchronous producer; the wait still has to cover them), 'latehandler' = AddEvent(event, nil) without wait, the finish handler installed on the returned monitor while the root action is still running (1..4 workers, 0..3 children, failing root, a second awaited cascade), judged at quiescence, 'ecal' = the same scripts as ECAL sinks awaited with the built-in addEventAndWait, 'noise' = seeded random scripts with random yields/sleeps at the lock-free hook points, also under -race; oracles: stamps of action ends vs. return of AddEventAndWait, exactly-once invocation table, AllErrors() at return time and again at quiescence vs. expected failures, finish-handler count, IsFinished of every monitor handed out, stuck-state predicate for a wait that cannot return; non-trivial/distinct = distinct interleaving signatures of the hook trace and feasible gate cases")
 	shapes := gateShapes()
 	i := 0
 	for si, sh := range shapes {
@@ -726,6 +726,15 @@ func Run(c *core.Ctx) {
 		}
 		c.Event("late.children", int64(nl))
 		runScenario(c, "late", k, s, uint64(r.OneOf(0, 100, 300)), r.U64(), nil)
+	}
+	n = c.Pick(400, 4000)
+	for k := 0; k < n; k++ {
+		if capped(c, "latehandler", k) {
+			break
+		}
+		if c.Take("latehandler", k) {
+			runLateHandler(c, k)
+		}
 	}
 	n = c.Pick(1500, 20000)
 	if c.Race {
